@@ -26,8 +26,8 @@ import (
 
 	. "verifharness/hlib"
 
-	rtspfmt "github.com/cnotch/ipchub/av/format/rtsp"
 	"github.com/cnotch/ipchub/av/format/hls"
+	rtspfmt "github.com/cnotch/ipchub/av/format/rtsp"
 	"github.com/cnotch/ipchub/config"
 	"github.com/cnotch/ipchub/media"
 	"github.com/cnotch/ipchub/provider/auth"
@@ -40,7 +40,7 @@ const waitLimit = 20 * time.Second // generous: only ever waited out when an exp
 
 type prov struct{}
 
-func (p *prov) LoadAll() ([]*auth.User, error)                  { return nil, nil }
+func (p *prov) LoadAll() ([]*auth.User, error)                { return nil, nil }
 func (p *prov) Flush(full, saves, removes []*auth.User) error { return nil }
 
 var (
@@ -97,9 +97,9 @@ type rtspClient struct {
 }
 
 type wspClient struct {
-	ctl  *wsClient
+	ctl   *wsClient
 	chan_ string
-	seq  int
+	seq   int
 }
 
 type world struct {
